@@ -19,11 +19,24 @@ import (
 	"os"
 	"path/filepath"
 	"sync"
+	"syscall"
 	"time"
 
 	"github.com/nuetzliches/hookaido/internal/app"
+	"github.com/nuetzliches/hookaido/internal/pullapi"
 	"github.com/nuetzliches/hookaido/internal/queue"
 )
+
+// slowAckStore makes Ack take a while (a slow disk, a busy database): time for a duplicate of the call to arrive
+type slowAckStore struct {
+	queue.Store
+	d time.Duration
+}
+
+func (s *slowAckStore) Ack(leaseID string) error {
+	time.Sleep(s.d)
+	return s.Store.Ack(leaseID)
+}
 
 func cmdConcX(args []string) error {
 	fs := flag.NewFlagSet("concx", flag.ExitOnError)
@@ -102,7 +115,12 @@ func cmdConcX(args []string) error {
 			if err != nil {
 				return err
 			}
-			rt, err := app.VerifNewRuntime(compiled, nil)
+			// every other round the clock takes a while to answer (a clock is a system call; it may be slow)
+			var clockFn func() time.Time
+			if round%2 == 1 {
+				clockFn = func() time.Time { time.Sleep(150 * time.Microsecond); return time.Now() }
+			}
+			rt, err := app.VerifNewRuntime(compiled, clockFn)
 			if err != nil {
 				return err
 			}
@@ -291,6 +309,231 @@ func cmdConcX(args []string) error {
 			}
 			emit(map[string]interface{}{"k": "cx", "scenario": "publish-dup", "backend": backend, "goroutines": k, "accepted": okN, "conflict": dupN, "other": otherN, "contestedStored": contested, "ownStored": own})
 			done()
+		}
+
+		// ---- (5) the bucket object itself, many times: k goroutines ask at one instant
+		{
+			burst := pick(r, []int{1, 2, 3})
+			worst := 0
+			now := time.Unix(1_700_000_000, 0)
+			for it := 0; it < 300; it++ {
+				b := app.VerifNewTokenBucket(0.0001, burst, now)
+				okN := 0
+				var mu sync.Mutex
+				fire(k, func(i int) {
+					if b.AllowAt(now) {
+						mu.Lock()
+						okN++
+						mu.Unlock()
+					}
+				})
+				if okN > worst {
+					worst = okN
+				}
+			}
+			emit(map[string]interface{}{"k": "cx", "scenario": "bucket", "goroutines": k, "iterations": 300, "burst": burst, "sent": k, "accepted": worst})
+		}
+
+		// ---- (6) near-full queue under reject, k publishers with batches that fit alone but not together
+		{
+			name := fmt.Sprintf("cx-b-%d.db", round)
+			const depth, prefill, batch = 10, 6, 3
+			st, done := newStore(backend, name, func() (queue.Store, error) {
+				if backend == "memory" {
+					return queue.NewMemoryStore(queue.WithQueueLimits(depth, "reject")), nil
+				}
+				return queue.NewSQLiteStore(filepath.Join(dir, name), queue.WithSQLiteQueueLimits(depth, "reject"))
+			})
+			if st == nil {
+				continue
+			}
+			for i := 0; i < prefill; i++ {
+				_ = st.Enqueue(queue.Envelope{ID: fmt.Sprintf("pre-%d", i), Route: "/p", Target: "pull", Payload: []byte("x")})
+			}
+			compiled, err := compileText("pull_api {\n  auth token raw:t\n}\n/p {\n  pull { path /pull/p }\n}\n")
+			if err != nil {
+				return err
+			}
+			rt, err := app.VerifNewRuntime(compiled, nil)
+			if err != nil {
+				return err
+			}
+			adm := rt.AdminServer(st)
+			okN, fullN, otherN := 0, 0, 0
+			var mu sync.Mutex
+			fire(k, func(i int) {
+				var items []map[string]string
+				for j := 0; j < batch; j++ {
+					items = append(items, map[string]string{"id": fmt.Sprintf("b-%d-%d-%d", round, i, j), "route": "/p", "payload_b64": "eA=="})
+				}
+				body, _ := json.Marshal(map[string]interface{}{"items": items})
+				req := httptest.NewRequest("POST", "http://ex/messages/publish", bytes.NewReader(body))
+				req.Header.Set("X-Hookaido-Audit-Reason", "verif")
+				rr := httptest.NewRecorder()
+				adm.ServeHTTP(rr, req)
+				mu.Lock()
+				switch rr.Code {
+				case 200:
+					okN++
+				case 503:
+					fullN++
+				default:
+					otherN++
+				}
+				mu.Unlock()
+			})
+			active := 0
+			if s, err := st.Stats(); err == nil {
+				active = s.ByState[queue.StateQueued] + s.ByState[queue.StateLeased]
+			}
+			emit(map[string]interface{}{"k": "cx", "scenario": "depth-batch", "backend": backend, "goroutines": k, "maxDepth": depth, "prefilled": prefill, "batch": batch, "accepted": okN, "refused": fullN, "other": otherN, "active": active})
+			done()
+		}
+
+		// ---- (7) a consumer's batch ack and an operator's cancel of the same message at once: exactly one of them wins
+		{
+			name := fmt.Sprintf("cx-a-%d.db", round)
+			st, done := newStore(backend, name, func() (queue.Store, error) {
+				if backend == "memory" {
+					return queue.NewMemoryStore(), nil
+				}
+				return queue.NewSQLiteStore(filepath.Join(dir, name))
+			})
+			if st == nil {
+				continue
+			}
+			n := 24
+			for i := 0; i < n; i++ {
+				_ = st.Enqueue(queue.Envelope{ID: fmt.Sprintf("ac-%d", i), Route: "/p", Target: "pull", Payload: []byte("x")})
+			}
+			resp, err := st.Dequeue(queue.DequeueRequest{Route: "/p", Target: "pull", Batch: n, LeaseTTL: time.Minute})
+			if err != nil || len(resp.Items) != n {
+				done()
+				continue
+			}
+			ackOK := make([]bool, n)
+			cancelOK := make([]bool, n)
+			lb, _ := st.(queue.LeaseBatchStore)
+			fire(2*n, func(g int) {
+				i := g / 2
+				it := resp.Items[i]
+				if g%2 == 0 {
+					if lb != nil {
+						br, err := lb.AckBatch([]string{it.LeaseID})
+						ackOK[i] = err == nil && br.Succeeded == 1
+					} else {
+						ackOK[i] = st.Ack(it.LeaseID) == nil
+					}
+				} else {
+					cr, err := st.CancelMessages(queue.MessageCancelRequest{IDs: []string{it.ID}})
+					cancelOK[i] = err == nil && cr.Canceled == 1
+				}
+			})
+			both, neither, wrongState := 0, 0, 0
+			look, _ := st.LookupMessages(queue.MessageLookupRequest{IDs: func() []string {
+				var ids []string
+				for _, it := range resp.Items {
+					ids = append(ids, it.ID)
+				}
+				return ids
+			}()})
+			state := map[string]queue.State{}
+			for _, it := range look.Items {
+				state[it.ID] = it.State
+			}
+			for i, it := range resp.Items {
+				switch {
+				case ackOK[i] && cancelOK[i]:
+					both++
+				case !ackOK[i] && !cancelOK[i]:
+					neither++
+				case cancelOK[i] && state[it.ID] != queue.StateCanceled:
+					wrongState++
+				case ackOK[i] && (state[it.ID] == queue.StateCanceled || state[it.ID] == queue.StateQueued || state[it.ID] == queue.StateLeased):
+					wrongState++
+				}
+			}
+			emit(map[string]interface{}{"k": "cx", "scenario": "ack-vs-cancel", "backend": backend, "messages": n, "both": both, "neither": neither, "wrongState": wrongState})
+			done()
+		}
+
+		// ---- (8) the same stale lease acked k times at once against a slow store: every answer is a conflict
+		{
+			st := queue.NewMemoryStore()
+			_ = st.Enqueue(queue.Envelope{ID: "s1", Route: "/p", Target: "pull", Payload: []byte("x")})
+			r1, _ := st.Dequeue(queue.DequeueRequest{Route: "/p", Target: "pull", Batch: 1, LeaseTTL: time.Minute})
+			if len(r1.Items) == 1 {
+				stale := r1.Items[0].LeaseID
+				_ = st.Nack(stale, 0)
+				_, _ = st.Dequeue(queue.DequeueRequest{Route: "/p", Target: "pull", Batch: 1, LeaseTTL: time.Minute}) // re-leased under another id
+				srv := pullapi.NewServer(&slowAckStore{Store: st, d: 2 * time.Millisecond})
+				srv.ResolveRoute = func(endpoint string) (string, bool) { return "/p", true }
+				okN := 0
+				var mu sync.Mutex
+				fire(k, func(i int) {
+					time.Sleep(time.Duration(i%4) * 500 * time.Microsecond)
+					if oe := srv.AckSingle("/p", stale); oe == nil {
+						mu.Lock()
+						okN++
+						mu.Unlock()
+					}
+				})
+				emit(map[string]interface{}{"k": "cx", "scenario": "stale-ack", "goroutines": k, "answeredSuccess": okN})
+			}
+		}
+
+		// ---- (9) a reload that raises the tolerance is held up while loading a later route's secret (a FIFO that nobody
+		// writes yet); a signed request is served meanwhile; then the reload completes. The request's replay after the OLD
+		// window is still inside the new one and must be refused.
+		if round%3 == 0 {
+			fifo := filepath.Join(dir, fmt.Sprintf("zsecret-%d", round))
+			_ = os.WriteFile(fifo, []byte("zkey\n"), 0o600)
+			text := func(tol int) string {
+				return fmt.Sprintf("pull_api {\n  auth token raw:t\n}\n/h {\n  auth hmac {\n    secret raw:concx-key\n    tolerance %ds\n  }\n  pull { path /pull/h }\n}\n/z {\n  auth hmac {\n    secret file:%s\n  }\n  pull { path /pull/z }\n}\n", tol, fifo)
+			}
+			compiled, err := compileText(text(5))
+			if err != nil {
+				return err
+			}
+			clock := &fakeClock{now: 1_700_000_000_000_000_000}
+			rt, err := app.VerifNewRuntime(compiled, clock.Now)
+			if err != nil {
+				return err
+			}
+			st := queue.NewMemoryStore(queue.WithNowFunc(clock.Now))
+			cfgPath := filepath.Join(dir, fmt.Sprintf("Hookaidofile.cx%d", round))
+			_ = os.WriteFile(cfgPath, []byte(text(300)), 0o600)
+			_ = os.Remove(fifo)
+			if err := syscall.Mkfifo(fifo, 0o600); err == nil {
+				reloaded := make(chan bool, 1)
+				go func() { reloaded <- rt.Reload(cfgPath) }()
+				time.Sleep(30 * time.Millisecond) // the reload is now waiting for the later route's secret
+				ts := fmt.Sprint(clock.now / int64(time.Second))
+				body := []byte("{}")
+				send := func() int {
+					req := httptest.NewRequest("POST", "http://ex/h", bytes.NewReader(body))
+					req.Header.Set("X-Signature", signIngress([]byte("concx-key"), ts, "POST", "/h", body))
+					req.Header.Set("X-Timestamp", ts)
+					req.Header.Set("X-Nonce", fmt.Sprintf("cxr-%d", round))
+					rr := httptest.NewRecorder()
+					rt.IngressServer(st).ServeHTTP(rr, req)
+					return rr.Code
+				}
+				first := send()
+				if f, err := os.OpenFile(fifo, os.O_WRONLY, 0); err == nil {
+					f.Write([]byte("zkey\n"))
+					f.Close()
+				}
+				ok := false
+				select {
+				case ok = <-reloaded:
+				case <-time.After(5 * time.Second):
+				}
+				clock.now += int64(10 * time.Second) // past the old window (5 s), well inside the new one (300 s)
+				second := send()
+				emit(map[string]interface{}{"k": "cx", "scenario": "reload-raise-inflight", "reloadOK": ok, "first": first, "replay": second})
+			}
+			os.Remove(fifo)
 		}
 	}
 	return nil
